@@ -91,8 +91,108 @@ def on_site(p, r, exc, acc):
     acc.sample(desc)
 
 
+# ------------------------------------------------------------------ who ends up with the exception: error_handler / format_exceptions / the caller
+class Boom2(Exception):
+    pass
+
+
+class Control(BaseException):
+    """a control-flow exception of a framework: not an Exception, carries state, needs its argument"""
+
+    def __init__(self, code):
+        self.code = code
+        super().__init__(code)
+
+
+KINDS = {"Exception": lambda: Boom2("x"), "BaseException": lambda: Control(7), "SystemExit": lambda: SystemExit(3)}
+H_SITES = {"body": "before ${boom()} after", "include": "before <%include file='inc'/> after",
+           "buffered-def": "<%def name='d()' buffered='True'>partial ${boom()}</%def>before ${d()} after",
+           "inherited": "<%inherit file='base'/>before ${boom()} after"}
+H_NORMAL = {"body": "before ok after", "include": "before inc ok cni after", "buffered-def": "before partial ok after", "inherited": "B(before ok after)"}
+
+
+def handler_case(LKm, cfg):
+    """returns (outcome, handler_calls, second_render)"""
+    E = KINDS[cfg["exception"]]()
+    state = {"raise": True}
+
+    def boom():
+        if state["raise"]:
+            raise E
+        return "ok"
+    calls = []
+
+    def h(context, error):
+        calls.append("same object" if error is E else ("its class" if error is type(E) else repr(error)))
+        context.write("[handled]")
+        return cfg["error_handler"] == "accept"
+    lk = LKm.TemplateLookup(error_handler=h if cfg["error_handler"] else None, format_exceptions=cfg["format_exceptions"])
+    lk.put_string("inc", "inc ${boom()} cni")
+    lk.put_string("base", "B(${next.body()})")
+    lk.put_string("main", H_SITES[cfg["site"]])
+    t = lk.get_template("main")
+    try:
+        out = t.render_unicode(boom=boom)
+        res = ("returned", out if len(out) < 80 else ("error page naming %s" % type(E).__name__ if type(E).__name__ in out else "some long text"))
+    except BaseException as e:
+        res = ("raised", "the same object" if e is E else "another exception: %r" % (e,))
+    state["raise"] = False
+    try:
+        again = t.render_unicode(boom=boom)
+    except BaseException as e:
+        again = "raised %r" % (e,)
+    return res, calls, again
+
+
+def handler_expected(cfg):
+    if cfg["error_handler"] == "accept":
+        return ("returned", {"body": "before [handled]", "include": "before inc [handled]", "buffered-def": "before [handled]", "inherited": "B(before [handled]"}[cfg["site"]])
+    if cfg["error_handler"] == "decline" or not cfg["format_exceptions"]:
+        return ("raised", "the same object")
+    return ("returned", "error page naming %s" % {"Exception": "Boom2", "BaseException": "Control", "SystemExit": "SystemExit"}[cfg["exception"]])
+
+
+def h_handlers(p):
+    cfg = dict(site=list(H_SITES)[p.choose(len(H_SITES), "site")], error_handler=[None, "accept", "decline"][p.choose(3, "error_handler")],
+               format_exceptions=bool(p.choose(2, "format_exceptions")), exception=list(KINDS)[p.choose(len(KINDS), "exception_kind")])
+    res, calls, again = handler_case(LK, cfg)
+    return dict(cfg=cfg, res=res, calls=calls, again=again)
+
+
+def on_handlers(p, r, exc, acc):
+    if exc is not None:
+        acc.candidate(kind="harness-exception", input=None, detail="%s: %s" % (type(exc).__name__, str(exc)[:200]))
+        return
+    acc.tags["raised"] += 1
+    acc.vcs += 2
+    want = handler_expected(r["cfg"])
+    if tuple(r["res"]) != want:
+        acc.candidate(kind="exception-disposition", input=dict(handlers=r["cfg"]), detail="%r, documented %r" % (r["res"], want))
+    elif r["again"] != H_NORMAL[r["cfg"]["site"]]:
+        acc.candidate(kind="second-render-wrong", input=dict(handlers=r["cfg"]), detail="second render gave %r" % (r["again"],))
+    acc.sample(dict(r["cfg"], outcome=list(r["res"]), handler_received=r["calls"]))
+
+
 def make_replay(c):
     i = c["input"] or {}
+    if "handlers" in i:
+        body = """
+sys.path.insert(0, "/verif")
+CASE = __CASE__
+import mako.lookup as LK
+from props import C13
+cfg = CASE["handlers"]
+print("configuration:", cfg); print("template:", C13.H_SITES[cfg["site"]])
+res, calls, again = C13.handler_case(LK, cfg)
+want = C13.handler_expected(cfg)
+print("outcome:", res, " handler received:", calls, " documented:", want); print("second render:", repr(again))
+bad = None
+if tuple(res) != want: bad = "the exception did not end up where the configuration says (%s %s)" % tuple(res)
+elif again != C13.H_NORMAL[cfg["site"]]: bad = "the Template does not render correctly afterwards"
+print("VIOLATED: " + bad if bad else "HOLDS")
+sys.exit(1 if bad else 0)
+""".replace("__CASE__", repr(i))
+        return (c["kind"], body, ("handlers", repr(sorted(i["handlers"].items(), key=str))))
     body = """
 sys.path.insert(0, "/verif")
 CASE = __CASE__
@@ -160,7 +260,11 @@ def run(check, tier):
         "afterwards behaves as from a fresh state",
         "state and outputs are concrete on each path; the solver decides which (raise point, pre-state) combinations are feasible and "
         "exhausts them")
-    check.not_claimed("error page contents of format_exceptions", "exceptions that are not Exception subclasses",
+    check.assume("disposition of the exception: an Exception, a BaseException that is not an Exception (carrying state) and SystemExit raised in the "
+                 "body / an included / a buffered / an inheriting template, with error_handler absent / accepting / declining and "
+                 "format_exceptions on/off: handled -> output so far plus the handler's; declined or no handler -> the SAME object "
+                 "reaches the caller; format_exceptions -> an error page naming the class; then the Template renders again correctly")
+    check.not_claimed("error page contents of format_exceptions", "include_error_handler",
                       "templates beyond the per-construct composition argument")
     jobs = []
     sites = list(RS.SITES) + (list(RS.NESTED) if tier == "thorough" else [n for n in RS.NESTED if n.endswith("_s_call") or n.endswith("_s_buf")])
@@ -168,6 +272,8 @@ def run(check, tier):
         jobs.append(("C13-" + site, h_site(site), on_site, "exception escaping construct %s, from a symbolic pre-state" % site, dict(site=site), ("raised",)))
         jobs.append(("C13-h-" + site, h_site(site, True), on_site, "exception inside construct %s handled by an enclosing %% try, then rendering continues" % site,
                      dict(site=site, handler="% try in the enclosing def"), ("raised",)))
+    jobs.append(("C13-handlers", h_handlers, on_handlers, "error_handler (none / accepts / declines) x format_exceptions x exception kind x raise site: who ends up with the exception",
+                 dict(sites=list(H_SITES), kinds=list(KINDS)), ("raised",)))
     for j in jobs:
         driver.register(j[0], j[1], j[2])
     cands = []
